@@ -124,6 +124,7 @@ fn explore(ctx: &Ctx) -> Outcome {
     let mut mb = binfam::multibyte_alignment();
     mb.extend(binfam::kana_family());
     mb.extend(binfam::tricky_family());
+    mb.extend(binfam::echo_family());
     mb.extend(binfam::collation_family());
     mb.extend(binfam::many_labels_family());
     mb.extend(binfam::pair_family());
@@ -131,6 +132,7 @@ fn explore(ctx: &Ctx) -> Outcome {
     mb.extend(binfam::palindromic_size_family());
     let (dl, dd) = ctx.tier.pick((300, 300), (1300, 4400));
     mb.extend(binfam::dense_family(dl, dd));
+    mb.extend(binfam::long_string_family(ctx.tier.pick(4400, 20_000)));
     let t = mb
         .par_iter()
         .fold(Tally::new, |mut t, c| {
